@@ -617,6 +617,7 @@ func init() {
 			engine.ExploreS(ctx, sc, engine.SConfig{BothPolicies: true, Bound: bound, Shard: ctx.Shard, NShards: ctx.NShards, Deadline: ctx.Deadline})
 		}
 		ttHandler(ctx)
+		ttUDPFlows(ctx)
 		ttSeq(ctx)
 	})
 	hk.Replayers["C17"] = func(ctx *engine.Ctx, rp engine.Replay) []*engine.Finding {
@@ -624,6 +625,9 @@ func init() {
 			sub := &engine.Ctx{Res: engine.NewResult("C17", ctx.Tier), NShards: 1}
 			ttHandler(sub)
 			return sub.Res.Findings
+		}
+		if rp.Unit == "tt-udp-flows" {
+			return replayUDPFlow(rp)
 		}
 		if rp.Unit == "tt-seq" {
 			sub := &engine.Ctx{Res: engine.NewResult("C17", ctx.Tier)}
